@@ -418,3 +418,62 @@ func handoverEscapeDocs(nd bool, leads []int) [][]byte {
 	}
 	return out
 }
+
+// handoverStraddleDocs: a value laid across the 64-byte block boundary after which stage 1
+// hands over a full index buffer, cut at every byte: literals, numbers, strings (plain and
+// with escapes), small containers.  Every piece of state stage 1 carries from block to block
+// (inside-a-string, odd backslash run, "previous byte was white space or structural", the
+// pending distance of the flattener, the stripped last index) has to survive the hand-over.
+func handoverStraddleDocs(nd bool, leads []int) [][]byte {
+	units := []string{"1,", "0, ", `"a",`, "[],", "12,"}
+	head := "["
+	if nd {
+		units = []string{"{\"a\":1}\n", "[1]\n", "[1,2]\n", "{\"a\":\"b\"}\n", "{\"a\":1} \n"}
+		head = ""
+	}
+	payloads := []string{"true", "false", "null", "-12.5e3", `"abcdefgh"`, `"a\"b\\"`, "[1,2]", `{"k":"v"}`, `""`, "0"}
+	var out [][]byte
+	for ui, u := range units {
+		for li, lead := range leads {
+			P := []byte(head + strings.Repeat(" ", lead) + strings.Repeat(u, 3200))
+			nth := (ui + li) % 2
+			B := handoverBoundary(P, nd, nth)
+			if B < 0 {
+				continue
+			}
+			for _, pl := range payloads {
+				for cut := 0; cut <= len(pl); cut++ {
+					open := 0
+					if nd {
+						open = 1
+					}
+					start := B - cut // the payload's byte number cut sits at B
+					q := len(head) + lead
+					for q+len(u) <= start-open {
+						q += len(u)
+					}
+					b := append([]byte{}, P[:q]...)
+					for len(b) < start-open {
+						b = append(b, ' ')
+					}
+					if nd {
+						b = append(b, '[')
+					}
+					b = append(b, pl...)
+					if nd {
+						b = append(b, ']', '\n')
+						b = append(b, strings.Repeat(u, 40)...)
+					} else {
+						b = append(b, strings.Repeat(", 0", 40)+"]"...)
+					}
+					// keep it only if the hand-over still happens at B
+					if handoverBoundary(append(append([]byte{}, b...), P[:len(P)/2]...), nd, nth) != B && handoverBoundary(b, nd, nth) != B {
+						continue
+					}
+					out = append(out, b)
+				}
+			}
+		}
+	}
+	return out
+}
